@@ -500,7 +500,8 @@ class Function:
         cls, global_ctx_name, domain, service, callback, supports_response=SupportsResponse.NONE
     ):
         """Register a new service callback."""
-        key = f"{domain}.{service}"
+        # hass folds service names to lower case: every spelling of a name shares one count and one owner
+        key = f"{domain}.{service}".lower()
         if key not in cls.service_cnt:
             cls.service_cnt[key] = 0
         if key not in cls.service2global_ctx:
@@ -515,7 +516,7 @@ class Function:
     @classmethod
     def service_remove(cls, global_ctx_name, domain, service):
         """Remove a service callback."""
-        key = f"{domain}.{service}"
+        key = f"{domain}.{service}".lower()
         if cls.service_cnt.get(key, 0) > 1:
             cls.service_cnt[key] -= 1
             return
